@@ -9,6 +9,20 @@ def hx(b):
     return bytes(b).hex() if b else '-'
 
 
+# every code of h3/src/error/codes.rs (the check regenerates GenCodes from it; this list is only a generator pool)
+H3_CODES = [51] + list(range(256, 273)) + [512, 513, 514]
+CODE_BOUNDS = [0, 1, 63, 64, 16383, 16384, 2 ** 30 - 1, 2 ** 30, 2 ** 32 + 5, 2 ** 62 - 1]
+
+
+def any_code(rng):
+    r = rng.random()
+    if r < 0.5:
+        return rng.choice(H3_CODES)
+    if r < 0.7:
+        return rng.choice(CODE_BOUNDS)
+    return rng.getrandbits(rng.choice([8, 16, 33, 62]))
+
+
 def vlen(v):
     return 1 if v < 64 else 2 if v < 16384 else 4 if v < 2 ** 30 else 8
 
@@ -64,7 +78,7 @@ class P(Property):
 
     def reset_script(self, rng, role, evs):
         """cut a healthy script at a seeded byte offset and reset there"""
-        code = rng.choice([0, 256, 268, 269, 270, 1, 77, 16383, 2 ** 32 + 5, 2 ** 62 - 1])
+        code = any_code(rng)
         body = evs[:-1]
         j = rng.randrange(len(body) + 1)
         out = body[:j]
@@ -94,7 +108,7 @@ class P(Property):
     def one_case(self, rng, tier):
         role = rng.choice(['s', 'c'])
         n = rng.choice([1, 2, 2, 3, 3, 4, 4])
-        reqs, nev, stops = [], [], []
+        reqs, nev, stops, zs = [], [], [], []
         for i in range(n):
             evs, _ = self.healthy_events(rng, i)
             kind = rng.choice(['ok', 'ok', 'ok', 'reset', 'reset', 'stop', 'malformed', 'oversized', 'finfirst', 'conn',
@@ -105,7 +119,7 @@ class P(Property):
             if kind == 'reset':
                 evs = self.reset_script(rng, role, evs)
             elif kind == 'stop':
-                stop = str(rng.choice([0, 256, 268, 5, 2 ** 40 + 1]))
+                stop = str(any_code(rng))
             elif kind == 'malformed':
                 evs = ['hm%d' % rng.randrange(3)] + (evs[1:] if rng.random() < 0.5 else [])
             elif kind == 'oversized':
@@ -117,7 +131,7 @@ class P(Property):
                 if r < 0.8:
                     evs.append('F')
                 elif r < 0.9:
-                    evs.append('R%d' % rng.choice([0, 270, 99]))
+                    evs.append('R%d' % any_code(rng))
                 else:
                     evs += ['tp%d' % rng.randint(1, 5), 'R7']
             elif kind == 'finfirst':
@@ -136,6 +150,7 @@ class P(Property):
             tz = '-' if rng.random() < 0.7 else str(rng.choice([35, 36, 40, 60, 135]))
             reqs.append('%s;%s;%d;%d;%s;%s' % ('.'.join(evs), stop, pad, z, hx(body), tz))
             nev.append(len(evs))
+            zs.append(z)
             stops.append(stop != '-')
         # schedule
         acts = []
@@ -170,7 +185,39 @@ class P(Property):
             for i in range(n):
                 acts += ['e%d' % i] * nev[i] + ['p%d' % i] * 6
         acts.append('pd')
-        return 'sf %s r=%s sched=%s' % (role, '/'.join(reqs), ','.join(acts))
+        # which request carries the connection's one grease frame (h3's default configuration has grease ON):
+        # server: the first accepted stream; client: the first request whose send_request succeeds
+        holder = '-'
+        if rng.random() < 0.5:
+            holder = self.grease_holder(role, n, zs, acts)
+        unk = 1 if rng.random() < 0.3 else 0
+        return 'sf %s cfg=g%s,u%d r=%s sched=%s' % (role, holder, unk, '/'.join(reqs), ','.join(acts))
+
+    @staticmethod
+    def grease_holder(role, n, zs, acts):
+        if role == 's':
+            for a in acts:
+                if a[0] == 'o':
+                    return a[1:]
+            return '-'
+        closing, limit, stopped, polled = False, None, set(), set()
+        for a in acts:
+            if a == 'gG':
+                closing = True
+            elif a.startswith('gS'):
+                if limit is None:
+                    limit = int(a[2:])
+            elif a[0] == 's':
+                stopped.add(int(a[1:]))
+            elif a[0] == 'p' and a != 'pd':
+                i = int(a[1:])
+                if i in polled:
+                    continue
+                polled.add(i)
+                if closing or (limit is not None and zs[i] > limit) or i in stopped:
+                    continue
+                return str(i)
+        return '-'
 
     def cases(self, tier, rng):
         k = 4000 if tier == 'quick' else 120000
@@ -210,10 +257,33 @@ class P(Property):
             return False
         return a[5] == '*' or o['t'] == a[5]
 
+    @staticmethod
+    def must_be_finished(case):
+        """indices of the requests whose peer events have all been delivered and whose task was polled at least 6
+        times afterwards (and, server, after the stream was accepted): C07_completes says 5 polls finish them"""
+        w = case.split()
+        reqs = w[3][2:].split('/')
+        nev = [len(r.split(';')[0].split('.')) for r in reqs]
+        acts = w[4][6:].split(',')
+        left = list(nev)
+        opened = [w[1] == 'c'] * len(reqs)
+        polls = [0] * len(reqs)
+        for a in acts:
+            if a[0] in 'oesp' and a != 'pd':
+                i = int(a[1:])
+                if a[0] == 'o':
+                    opened[i] = True
+                elif a[0] == 'e' and left[i] > 0:
+                    left[i] -= 1
+                elif a[0] == 'p' and left[i] == 0 and opened[i]:
+                    polls[i] += 1
+        return {i for i in range(len(reqs)) if polls[i] >= 6}
+
     def spec_ok(self, case, out, spec):
         if spec is None:
             return True
         ow, sw = out.split(), spec.split()
+        done = self.must_be_finished(case) if sw[-2:] == ['conn=ok;close=-', 'solo=same'] else set()
         if len(ow) != len(sw) or not ow or ow[0] != 'ok':
             return False
         for o, s in zip(ow[1:], sw[1:]):
@@ -224,6 +294,8 @@ class P(Property):
                 if allows == '*':
                     continue
                 ob = self.parse_req(o[len(name) + 1:])
+                if ob['res'] == 'run' and int(name[1:]) in done:
+                    return False          # a stalled request: everything has arrived and the task was polled
                 if not any(self.sat(ob, a) for a in allows.split('|')):
                     return False
             elif s.endswith('=*'):
@@ -246,19 +318,19 @@ class P(Property):
         w = case.split()
         if len(w) < 3:
             return 'sf'
-        return 'sf.%s.n%d' % (w[1], w[2].count('/') + 1)
+        return 'sf.%s.n%d' % (w[1], w[3].count('/') + 1)
 
     def shrink_candidates(self, case):
         w = case.split()
-        if len(w) != 4 or not w[3].startswith('sched='):
+        if len(w) != 5 or not w[4].startswith('sched='):
             return []
-        toks = w[3][6:].split(',')
+        toks = w[4][6:].split(',')
         out = []
         for k in range(len(toks)):
             if toks[k][0] in 'og':
                 continue
             t = toks[:k] + toks[k + 1:]
-            out.append(' '.join(w[:3] + ['sched=' + (','.join(t) or '-')]))
+            out.append(' '.join(w[:4] + ['sched=' + (','.join(t) or '-')]))
             if len(out) >= 60:
                 break
         return out
